@@ -371,7 +371,8 @@ def server_close(ctx, ex, prog, viol):
                 if okf:
                     conds.append(items[0]['chan'].bv == 0)
                     # queued after everything that was already in the buffer
-                    conds.append(items[0]['pos'] == w.outbuf.items[0]['pos'] + w.outbuf.items[0]['len'])
+                    early_ = [it_ for it_ in w.outbuf.items if it_.get('kind') == 'earlier']
+                    conds.append(items[0]['pos'] == early_[0]['pos'] + early_[0]['len'] if early_ else z3.BoolVal(False))
                 conds.append(sealed_flag(prog, w))
                 conds.append(earlier_kept(w))
                 stv = w.state.value
